@@ -40,8 +40,9 @@ func maxAbs(d *DataJ) float64 {
 
 // load writes the sample set through remote write into a fresh database and waits until it is visible.
 // A refused valid write is returned as an error text (a violation of the premise, reported by the caller).
-func load(d *DataJ) (*loaded, string) {
-	s := server()
+func load(d *DataJ) (*loaded, string) { return loadOn(server(), d) }
+
+func loadOn(s *bb.Server, d *DataJ) (*loaded, string) {
 	tA := time.Now()
 	db := freshDB(s)
 	if os.Getenv("C18_TIMING") != "" {
@@ -58,7 +59,7 @@ func load(d *DataJ) (*loaded, string) {
 		}
 		return ""
 	}
-	if d.Flush == 2 {
+	if d.Flush == 2 || d.Flush == 3 {
 		var lo, hi int64 = math.MaxInt64, math.MinInt64
 		for _, se := range d.Series {
 			for _, p := range se.Samples {
@@ -84,7 +85,7 @@ func load(d *DataJ) (*loaded, string) {
 	if !awaitVisible(s, db, d) {
 		return nil, visibilityProblem(s)
 	}
-	if d.Flush == 1 {
+	if d.Flush == 1 || d.Flush == 3 {
 		s.Flush()
 	}
 	return l, ""
@@ -238,8 +239,20 @@ func (l *loaded) checkQuery(q QueryJ, note func(string)) string {
 
 // runCase loads the data and checks every query; the first violation is returned (all of them when all is set).
 func runCase(c *CaseJ, note func(qi int, what string), all bool) []Violation {
+	return runCaseOn(server(), c, note, all)
+}
+
+// runOnFreshServer checks the case on a server process started for it alone (what the replay tier does).
+func runOnFreshServer(c *CaseJ) []Violation {
+	s := bb.NewServer(bb.Options{Prop: 18, Instance: 1, NoHook: true})
+	s.MustStart()
+	defer s.Destroy()
+	return runCaseOn(s, c, func(int, string) {}, false)
+}
+
+func runCaseOn(s *bb.Server, c *CaseJ, note func(qi int, what string), all bool) []Violation {
 	t0 := time.Now()
-	l, msg := load(&c.Data)
+	l, msg := loadOn(s, &c.Data)
 	if msg != "" {
 		return []Violation{{Msg: msg}}
 	}
